@@ -220,11 +220,17 @@ Definition same_but_flag (s1 s2 : state) : Prop :=
   secret s1 = secret s2 /\ tainted s1 = tainted s2.
 
 (* statements whose outcome depends on the flag even in a running program: the listing / saving / editing
-   family (refused in run mode too) and PEEK(1450), which reads the flag itself *)
+   family (refused in run mode too) and PEEK(1450), which reads the flag itself.  RENUM and DELETE (which end
+   the run anyway) count as such exactly if the regenerated table gives them a guard that fires in run mode.
+   READ and the PEEK family must NOT be flag sensitive: a guard there that ignores run_mode breaks the proof. *)
+Definition run_fires (g : gkind) : bool :=
+  match g with GProt | GProtNotP | GProtMerge => true | _ => false end.
 Definition flag_sensitive (o : op) : bool :=
   match o with
   | OList | OLlist | OEdit _ | OEditPrompt | OSave SA | OSave SB | OStoreNew | OStoreDel _
   | OAutoLine false | OMerge true | OChainMerge _ | OPeekFlag => true
+  | ORenum => run_fires g_renum || run_fires g_cb_renum
+  | ODelete _ => run_fires g_delete || run_fires g_cb_delete
   | _ => false
   end.
 
@@ -239,6 +245,7 @@ Proof.
   cbn in Ha, Hr, Hp, Hs, Ht, Hrun. subst a2 r2 pr2 se2 t2 r1.
   unfold same_but_flag.
   destruct o as [ | |r| |m| | | | | |v| | | |v| | | |r|em|hl|hl|f|f|f| |rs| | | | ];
+    cbv [flag_sensitive run_fires g_renum g_cb_renum g_delete g_cb_delete orb] in Hf;
     try discriminate Hf;
     try destruct m; try destruct f; try destruct em; try destruct hl; try discriminate Hf;
     destruct p1, p2, a1; open_step; split_ifs; cbn; auto 10.
